@@ -76,13 +76,19 @@ class Differ:
         ):
             yield entry
 
-    def _purge_document(self, path: YAMLPath, data: Any) -> None:
+    def _purge_document(
+        self, path: YAMLPath, data: Any, is_root: bool = True
+    ) -> None:
         """
         Record changes necessary to delete every node in the document.
 
         Parameters:
         1. path (YAMLPath) YAML Path to the document element under evaluation
         2. data (Any) The DOM element under evaluation
+        3. is_root (bool) True = data is the document root, where None means
+           there is no document; False = data is the value of a key or an
+           element of its parent, where None is a null value like any other
+           scalar
 
         Returns:  N/A
         """
@@ -112,18 +118,24 @@ class Differ:
                         DiffActions.DELETE, next_path, ele, None,
                         lhs_parent=data, lhs_iteration=idx))
         else:
-            if data is not None:
+            if data is not None or not is_root:
                 self._diffs.append(
                     DiffEntry(DiffActions.DELETE, path, data, None)
                 )
 
-    def _add_everything(self, path: YAMLPath, data: Any) -> None:
+    def _add_everything(
+        self, path: YAMLPath, data: Any, is_root: bool = True
+    ) -> None:
         """
         Record changes necessary to add every node in the document.
 
         Parameters:
         1. path (YAMLPath) YAML Path to the document element under evaluation
         2. data (Any) The DOM element under evaluation
+        3. is_root (bool) True = data is the document root, where None means
+           there is no document; False = data is the value of a key or an
+           element of its parent, where None is a null value like any other
+           scalar
 
         Returns:  N/A
         """
@@ -153,7 +165,7 @@ class Differ:
                         DiffActions.ADD, next_path, None, ele,
                         rhs_parent=data, rhs_iteration=idx))
         else:
-            if data is not None:
+            if data is not None or not is_root:
                 self._diffs.append(
                     DiffEntry(DiffActions.ADD, path, None, data)
                 )
@@ -728,9 +740,13 @@ class Differ:
             else:
                 self._diff_scalars(path, lhs, rhs, **kwargs)
         else:
+            # Only the root of a document can be "nothing"; a null which is
+            # the value of a key or an element is deleted or added like any
+            # other scalar.
+            is_root = not ("lhs_parent" in kwargs or "rhs_parent" in kwargs)
             diff_count = len(self._diffs)
-            self._purge_document(path, lhs)
-            self._add_everything(path, rhs)
+            self._purge_document(path, lhs, is_root)
+            self._add_everything(path, rhs, is_root)
             if len(self._diffs) == diff_count:
                 # Neither side has any content to delete or add (each is
                 # null or an empty container) yet they are of different
